@@ -1,3 +1,4 @@
+import subprocess
 from typing import Optional
 from conductor.utils.output_handler import OutputHandler
 
@@ -12,6 +13,7 @@ class OperationExecutionHandle:
         pid: Optional[int],
     ):
         self.pid: Optional[int] = pid
+        self.process: Optional[subprocess.Popen] = None
         self.stdout: Optional[OutputHandler] = None
         self.stderr: Optional[OutputHandler] = None
         self.returncode: Optional[int] = None
